@@ -98,9 +98,9 @@ Lemma growth_all :
   Forall (fun e => TaskInvG c canon (snd e)) (r_trace (step c s d))
   /\ TaskInvG c canon (r_db (step c s d)).
 Proof.
-  destruct (step_all c Gg BPg HPg HDg RJg Hc Gg_ok Gg_bp Gg_hp Gg_hd no_reorg g d s Hpv
-                     (conj Hw Hon) Ht) as (A & B & _).
-  assert (K : forall x, Inv c BPg HPg HDg RJg g (outside c d) d x -> TaskInvG c canon x).
+  destruct (step_all c Gg (fun _ => True) True BPg HPg HDg RJg Hc Gg_ok Gg_bp Gg_hp Gg_hd (fun _ _ => I) no_reorg g d s Hpv
+                     (conj Hw Hon) (Forall_True s) Ht) as (A & B & _).
+  assert (K : forall x, Inv c True BPg HPg HDg RJg g (outside c d) d x -> TaskInvG c canon x).
   { intros x (_ & [(p & _ & [Hwp Hbp] & E)|(p & bs & _ & _ & [Hwp Hbp] & E)] & _);
       (eexists; split; [exact E|split; assumption]). }
   split; [|apply K; exact B]. eapply Forall_impl; [|exact A]. intros e. apply K.
@@ -115,12 +115,12 @@ Lemma growth_converged : r_out (step c s d) = Fin OConverged ->
     /\ outside c (r_db (step c s d)) = outside c d.
 Proof.
   intros Ho.
-  destruct (step_converged c Gg BPg HPg HDg RJg Hc Gg_ok Gg_bp Gg_hp Gg_hd no_reorg g d s Hpv
-                           (conj Hw Hon) Ht Ho)
+  destruct (step_converged c Gg (fun _ => True) True BPg HPg HDg RJg Hc Gg_ok Gg_bp Gg_hp Gg_hd (fun _ _ => I) no_reorg g d s Hpv
+                           (conj Hw Hon) (Forall_True s) Ht Ho)
     as (p & q & bs & ln & lh & Eg & Hu & Hp & [Hwf Hbf] & Hpos & Hn & Hne & Hlen & _).
   apply unw_false in Hu. subst p.
-  destruct (step_all c Gg BPg HPg HDg RJg Hc Gg_ok Gg_bp Gg_hp Gg_hd no_reorg g d s Hpv
-                     (conj Hw Hon) Ht) as (_ & (Ho' & _) & _).
+  destruct (step_all c Gg (fun _ => True) True BPg HPg HDg RJg Hc Gg_ok Gg_bp Gg_hp Gg_hd (fun _ _ => I) no_reorg g d s Hpv
+                     (conj Hw Hon) (Forall_True s) Ht) as (_ & (Ho' & _) & _).
   rewrite concat_snoc in Hbf. apply Forall_app in Hbf. destruct Hbf as [_ Hbs].
   destruct (on_chain_run hs canon _ _ _ Hbs Hn) as [A B].
   exists ln, lh, (N.of_nat (length bs)).
@@ -135,8 +135,8 @@ Lemma growth_not_converged : forall o,
   r_out (step c s d) = Fin o -> o <> OConverged -> pv c (r_db (step c s d)) = pv c d.
 Proof.
   intros o Hnda Ho Hne.
-  destruct (step_not_converged c Gg BPg HPg HDg RJg Hc Gg_ok Gg_bp Gg_hp Gg_hd no_reorg g d s Hpv
-                               (conj Hw Hon) Ht o Hnda Ho Hne) as (p & q & _ & Hu & Hp).
+  destruct (step_not_converged c Gg (fun _ => True) True BPg HPg HDg RJg Hc Gg_ok Gg_bp Gg_hp Gg_hd (fun _ _ => I) no_reorg g d s Hpv
+                               (conj Hw Hon) (Forall_True s) Ht o Hnda Ho Hne) as (p & q & _ & Hu & Hp).
   apply unw_false in Hu. subst p. rewrite Hp, Hpv. reflexivity.
 Qed.
 End OneStep.
